@@ -65,6 +65,8 @@ class Sequence(compound.CompoundQuery):
     def __eq__(self, other):
         return (other and type(self) is type(other)
                 and self.subqueries == other.subqueries
+                and self.slop == other.slop
+                and self.ordered == other.ordered
                 and self.boost == other.boost)
 
     def __repr__(self):
@@ -73,7 +75,7 @@ class Sequence(compound.CompoundQuery):
                                               self.boost)
 
     def __hash__(self):
-        h = hash(self.slop) ^ hash(self.boost)
+        h = hash(self.slop) ^ hash(self.ordered) ^ hash(self.boost)
         for q in self.subqueries:
             h ^= hash(q)
         return h
